@@ -182,6 +182,8 @@ def elaborate(case):
                         a = pyrtl.Input(AW, an)
                     if how == 'enabled':     # the write carries its own enable on top of the branch predicate
                         tgt[a] |= pyrtl.MemBlock.EnabledWrite(d, pyrtl.Input(1, 'e_%s_%d' % (tname, ni)))
+                    elif how in ('enabled0', 'enabled1'):   # ... an enable tied to a constant (a port switched off / on)
+                        tgt[a] |= pyrtl.MemBlock.EnabledWrite(d, pyrtl.Const(int(how[-1]), bitwidth=1) if ni % 2 else bool(int(how[-1])))
                     else:
                         tgt[a] |= d
                 elif isinstance(tgt, pyrtl.Register):
@@ -221,6 +223,18 @@ def elaborate(case):
 
 
 # --- oracle: tree interpreter over z3 booleans -------------------------------------------------------
+
+def plain_shape(forest):
+    """no `otherwise` directly after another `otherwise` among the same siblings"""
+    prev = None
+    for k, kids in forest:
+        if k == 'o' and prev == 'o':
+            return False
+        if not plain_shape(kids):
+            return False
+        prev = k
+    return True
+
 
 def active_conditions(forest, pvars):
     """{node index: z3 Bool 'branch is active'} from the property statement"""
@@ -299,7 +313,7 @@ def cases(tier, seed):
         kind = rng.choice(['reg', 'reg_d', 'reg_d', 'wire_d', 'mem'])
         mask = rng.randrange(1, 1 << n)
         amap = {str(k): rng.choice(['pre', 'post']) for k in range(n) if mask >> k & 1}
-        rhs = {k: rng.choice(['self', 'const', 'zero', 'in'] if kind.startswith('reg') else (['enabled', 'enabled', 'const', 'zero', 'in'] if kind == 'mem'
+        rhs = {k: rng.choice(['self', 'const', 'zero', 'in'] if kind.startswith('reg') else (['enabled', 'enabled', 'enabled0', 'enabled1', 'const', 'zero', 'in'] if kind == 'mem'
                                                                                               else ['const', 'zero', 'zero', 'in'])) for k in amap}
         out.append({'shape': to_json(sh), 'targets': [{'kind': kind, 'name': 't0'}], 'assign': {'t0': amap}, 'K': 2,
                     'rhs': {'t0': rhs}})
@@ -436,8 +450,13 @@ def run_case(case, ob, tier):
     ob.fact('conditional-state-reset-after-block', C._depth == 0 and C._conditions_list_stack == [[]], site + ':state-leak')
     if overlap:
         ob.fact('overlapping-assignments-rejected', err is not None, site + ':overlap-accepted')
+    elif plain_shape(from_json(case['shape'])):
+        # a program whose assigning branches can never be active together (decided by the solver over the tree shape) is one
+        # of the programs the property speaks about: it must elaborate. (PyRTL refuses an `otherwise` that directly follows
+        # another `otherwise` whatever is assigned: those shapes are not held to this)
+        ob.fact('mutually-exclusive-program-accepted', err is None, site + ':rejected', detail=repr(err))
     if err is not None:
-        ob.notes.append('rejected programs are not checked further (the property does not promise acceptance)')
+        ob.notes.append('rejected programs are not checked further')
         return
     K = case['K']
     v = Vars()
@@ -470,7 +489,8 @@ def run_case(case, ob, tier):
                     goals.append(('memread:%s@%d' % (name, t), got == z3.Select(arr, v.inp('ra_' + name, t, AW)), site + ':mem-read'))
                     new = arr
                     for i in idx:
-                        wen = act[i] if rhs_kind(case, name, i) != 'enabled' else z3.And(act[i], v.inp('e_%s_%d' % (name, i), t, 1) == 1)
+                        hk = rhs_kind(case, name, i)
+                        wen = {'enabled': z3.And(act[i], v.inp('e_%s_%d' % (name, i), t, 1) == 1), 'enabled0': z3.BoolVal(False)}.get(hk, act[i])
                         new = z3.If(wen, z3.Store(arr, v.inp(addr_name(case, name, i), t, AW), rhs_term(case, name, kind, i, t, v, None)), new)
                     memstate[name] = new
                     continue
@@ -522,6 +542,8 @@ def replay(cex):
     except Exception as e:
         return True, 'elaboration raised %r (not a PyrtlError)' % (e,)
     if cex.get('structural'):
+        if cex['obligation'] == 'mutually-exclusive-program-accepted':
+            return (not overlap and err is not None), 'no two assigning branches can be active together; elaboration raised %r' % (err,)
         if cex['obligation'] == 'overlapping-assignments-rejected':
             return (overlap and err is None), 'two assigning branches can be active together; elaboration %s' % (
                 'raised ' + repr(err) if err else 'ACCEPTED the program')
@@ -569,7 +591,8 @@ def replay(cex):
             got = trace['o_' + name][t]
             if kind == 'mem':
                 exp = memstate[name].get(val('ra_' + name, t), 0)
-                if on and (rhs_kind(case, name, on[-1]) != 'enabled' or val('e_%s_%d' % (name, on[-1]), t)):
+                hk = rhs_kind(case, name, on[-1]) if on else None
+                if on and hk != 'enabled0' and (hk != 'enabled' or val('e_%s_%d' % (name, on[-1]), t)):
                     memstate[name][val(addr_name(case, name, on[-1]), t)] = dval(name, kind, on[-1], t, None)
             elif kind in ('wire', 'wire_d'):
                 exp = dval(name, kind, on[-1], t, None) if on else (val('dflt_' + name, t) if kind == 'wire_d' else 0)
